@@ -14,6 +14,7 @@ ASSUMPTIONS = [
     "the stop is injected at message boundaries of the wire (before/after delivery of message k); sub-message timing varies with scheduling",
     "prompt = within timeout + 1.5 s (drains) + 8 s slack after the stop, taken from the code's constants",
     "one stop per transfer",
+    "process-level runs: SIGINT / SIGTERM to the real trz / tsz process once 0.3-2.3 MB have flowed of a 6 MiB transfer (timing by byte count, not by message)",
 ]
 
 
@@ -34,8 +35,17 @@ def run(tier, v):
     out = os.path.join(vlib.scratch(), "c10")
     s = vlib.run_driver(h, "c10_stop", out, {"shards": 96, "thorough": not quick}, timeout=3400)
     files, details = E.gather(out)
+    # SIGINT / SIGTERM to the real trz / tsz processes in the middle of a transfer
+    bins = vlib.build_cmds(("trz", "tsz"))
+    out2 = os.path.join(vlib.scratch(), "c10sig")
+    s2 = vlib.run_driver(h, "c10_signal", out2, {"bindir": os.path.dirname(bins["trz"]), "runs": 8 if quick else 64, "shards": 8}, timeout=1500)
+    f2, d2 = E.gather(out2, 2)
+    details.update(d2)
+    files = files + f2
     bad, _, st = E.judge(files, "TransferObs", "TransferObs_c10.cfg", v, details, "obs", keyfn=keyfn, timeout=3000)
-    cov["traces_validated_against_impl"] = s["runs"]
+    cov["traces_validated_against_impl"] = s["runs"] + s2["runs"]
+    cov["process_level_signal_runs"] = s2["runs"]
+    cov["process_level_signalled"] = s2.get("signalled", 0)
     cov["tv_states"] = st
     cov["obs_files_rejected"] = bad
     table, mx = {}, 0
